@@ -70,7 +70,24 @@ pub fn gen_foreign(rng: &mut Rng, cfg: &ForeignCfg) -> Foreign {
         _ => rng.usize(1, cfg.max_msgs),
     };
     let pool_n = rng.usize(1, 4);
-    let pool: Vec<u32> = (0..pool_n).map(|_| pick_csid(rng)).collect();
+    let mut pool: Vec<u32> = Vec::new();
+    for _ in 0..pool_n {
+        // aliasing candidates: ids that collide under truncation or masking of an earlier one
+        let c = match pool.last() {
+            Some(&b) if rng.chance(1, 4) => {
+                let d = *rng.pick(&[64u32, 256, 65536, 192, 1]);
+                if b + d <= 65599 {
+                    b + d
+                } else if b > d + 1 {
+                    b - d
+                } else {
+                    pick_csid(rng)
+                }
+            }
+            _ => pick_csid(rng),
+        };
+        pool.push(c.clamp(2, 65599));
+    }
     let mut clocks: HashMap<u32, u64> = HashMap::new();
     let mut templates: HashMap<u32, Template> = HashMap::new();
     let mut f = Foreign {
@@ -117,6 +134,8 @@ pub fn gen_foreign(rng: &mut Rng, cfg: &ForeignCfg) -> Foreign {
                     type_id: *rng.pick(&[8u8, 9, 18, 20, 4, 3, 22, 0, 255, 15, 17]),
                     msid: match keep_msid {
                         Some(m) if rng.chance(2, 3) => m,
+                        // occasionally a message stream id equal to one of the chunk stream ids in use
+                        _ if rng.chance(1, 6) => *rng.pick(&pool),
                         _ => *rng.pick(&[0u32, 1, 1, 1, 5, 0x01000000, 0xFFFF_FFFF]),
                     },
                     len,
